@@ -191,6 +191,7 @@ class JobResult:
         self.errors = []
         self.incomplete = False
         self.wall = 0.0
+        self.crash_notes = []
 
 
 def run_job(pid, job, tier, deadline, env_extra=None):
@@ -214,7 +215,7 @@ def run_job(pid, job, tier, deadline, env_extra=None):
     env.update(toolenv)
     env['VERIF_SCRATCH_DIR'] = scratch
     env['VERIF_REPO'] = REPO
-    env.setdefault('ASAN_OPTIONS', 'detect_leaks=0:abort_on_error=0:allocator_may_return_null=1:detect_stack_use_after_return=0:handle_segv=0:handle_sigbus=0')
+    env.setdefault('ASAN_OPTIONS', 'detect_leaks=0:abort_on_error=0:allocator_may_return_null=1:exitcode=77:detect_stack_use_after_return=0:handle_segv=0:handle_sigbus=0')
     env.setdefault('TSAN_OPTIONS', 'halt_on_error=0:report_signal_unsafe=0:second_deadlock_stack=1')
     if env_extra:
         env.update(env_extra)
@@ -232,16 +233,19 @@ def run_job(pid, job, tier, deadline, env_extra=None):
         procs.append((subprocess.Popen(cmd, stdout=out, stderr=err, env=e, cwd=sdir), cmd, out, err))
     hard = deadline + 120
     for i, (p, cmd, out, err) in enumerate(procs):
+        killed = False
         try:
             p.wait(timeout=max(1, hard - time.time()))
         except subprocess.TimeoutExpired:
             p.kill()
             p.wait()
+            killed = True
             res.incomplete = True
             res.errors.append('shard %d of %s killed at hard deadline' % (i, job['name']))
         out.close()
         err.close()
         got_done = False
+        nviol_lines = 0
         with open(os.path.join(scratch, 'out.%d' % i), 'r', errors='replace') as f:
             for line in f:
                 if not line.startswith('@'):
@@ -264,6 +268,7 @@ def run_job(pid, job, tier, deadline, env_extra=None):
                     if len(res.samples) < 12:
                         res.samples.append(d)
                 elif kind == 'violation':
+                    nviol_lines += 1
                     d['job'] = job['name']
                     d['argv'] = args
                     res.violations.append(d)
@@ -275,8 +280,16 @@ def run_job(pid, job, tier, deadline, env_extra=None):
                     res.errors.append('%s shard %d: %s' % (job['name'], i, d))
         if p.returncode not in (0, 1) or not got_done:
             tail = open(os.path.join(scratch, 'err.%d' % i), 'r', errors='replace').read()[-3000:]
-            if p.returncode is not None and not (p.returncode in (0, 1) and got_done):
-                res.errors.append('%s shard %d exited rc=%s done=%s stderr tail:\n%s' % (job['name'], i, p.returncode, got_done, tail))
+            if killed:
+                pass
+            elif nviol_lines == 0:
+                # the harness died while running library code and could not attribute it to a case:
+                # still a failure of the code under test, reported against the shard
+                res.violations.append({'key': 'crash', 'job': job['name'], 'argv': args,
+                                       'case': '(unattributed) shard %d/%d' % (i, shards),
+                                       'what': 'harness process died rc=%s; stderr tail: %s' % (p.returncode, tail[-1500:])})
+            else:
+                res.crash_notes.append('%s shard %d ended rc=%s after reporting a violation' % (job['name'], i, p.returncode))
     shutil.rmtree(scratch, ignore_errors=True)
     res.wall = time.time() - t0
     return res
@@ -403,7 +416,7 @@ def do_replay(path):
     scratch = tempfile.mkdtemp(prefix='verif-replay-', dir='/var/tmp')
     env['VERIF_SCRATCH_DIR'] = scratch
     env['VERIF_REPO'] = REPO
-    env.setdefault('ASAN_OPTIONS', 'detect_leaks=0:abort_on_error=0:handle_segv=0:handle_sigbus=0')
+    env.setdefault('ASAN_OPTIONS', 'detect_leaks=0:abort_on_error=0:handle_segv=0:handle_sigbus=0:exitcode=77')
     if job.get('env'):
         env.update(job['env'])
     cmd = [exe, '--prop', pid, '--tier', v.get('tier', 'quick'), '--shard', '0/1', '--deadline', str(int(time.time()) + 600)] + v.get('argv', []) + ['--case', v['case']]
